@@ -747,3 +747,38 @@ def success_flag_ok(cfg, fi, f, good):
         if any(x in cfg.reachable([t]) for x in falses):
             return False
     return True
+
+
+
+def int_length_guard(fn):
+    """A hand-made length test in front of int() in a token function: `if <limit> > 0 and len(<text without its sign>) > <limit>: raise
+    SyntaxError` with <limit> read from sys.get_int_max_str_digits (0 = switched off; the sign is not a digit).
+    -> ("exact", node) | ("wrong", node, why) | None (no such test, or a form not read here)"""
+    import ast as _ast
+
+    for st in _ast.walk(fn):
+        if not (isinstance(st, _ast.If) and any(isinstance(x, _ast.Raise) for b in st.body for x in _ast.walk(b))):
+            continue
+        conj = st.test.values if isinstance(st.test, _ast.BoolOp) and isinstance(st.test.op, _ast.And) else [st.test]
+        lens = [c for c in conj if isinstance(c, _ast.Compare) and len(c.ops) == 1 and isinstance(c.ops[0], (_ast.Gt, _ast.GtE)) and isinstance(c.left, _ast.Call) and src(c.left.func) == "len" and isinstance(c.comparators[0], _ast.Name)]
+        if not lens:
+            continue
+        lim = lens[0].comparators[0].id
+        defs = [n.value for n in _ast.walk(fn) if isinstance(n, _ast.Assign) and any(isinstance(t, _ast.Name) and t.id == lim for t in n.targets)]
+        if len(defs) != 1 or "get_int_max_str_digits" not in src(defs[0]):
+            return None
+        arg = lens[0].left.args[0] if lens[0].left.args else None
+        a_src = src(arg).replace(" ", "") if arg is not None else ""
+        stripped = a_src.endswith('.value.lstrip("+-")') or a_src.endswith('.value.lstrip("-+")') or a_src.endswith(".value.lstrip('+-')") or a_src.endswith(".value.lstrip('-+')")
+        positive = any(isinstance(c, _ast.Compare) and len(c.ops) == 1 and isinstance(c.ops[0], _ast.Gt) and isinstance(c.left, _ast.Name) and c.left.id == lim and isinstance(c.comparators[0], _ast.Constant) and c.comparators[0].value == 0 for c in conj) \
+            or any(isinstance(c, _ast.Name) and c.id == lim for c in conj)
+        if not isinstance(lens[0].ops[0], _ast.Gt):
+            return ("wrong", st, "a literal of exactly the limit's length is refused (`>=`), int() converts it")
+        if a_src.endswith(".value") and not stripped:
+            return ("wrong", st, "`len(%s)` counts the sign, int() does not: `-` followed by exactly the limit's number of digits is refused although Python converts it" % src(arg))
+        if not stripped:
+            return None
+        if not positive:
+            return ("wrong", st, "the limit reads 0 when it is switched off (sys.set_int_max_str_digits(0)): without a `%s > 0` test every integer literal is then refused" % lim)
+        return ("exact", st)
+    return None
